@@ -119,10 +119,26 @@ impl BlobWriter for FileBlobWriter {
 
         // Write the data to a temporary file and then rename it to the target path
         let tmp_path = path.with_extension(".INCOMPLETE");
+        #[cfg(locustdb_verif)]
+        crate::verif::fs_effect(crate::verif::FsOp::CreateTemp, false, &tmp_path, path, data);
         let mut file = File::create(&tmp_path)?;
+        #[cfg(locustdb_verif)]
+        crate::verif::fs_effect(crate::verif::FsOp::CreateTemp, true, &tmp_path, path, data);
+        #[cfg(locustdb_verif)]
+        crate::verif::fs_effect(crate::verif::FsOp::Write, false, &tmp_path, path, data);
         file.write_all(data)?;
+        #[cfg(locustdb_verif)]
+        crate::verif::fs_effect(crate::verif::FsOp::Write, true, &tmp_path, path, data);
         file.sync_all()?;
+        #[cfg(locustdb_verif)]
+        crate::verif::fs_effect(crate::verif::FsOp::Sync, true, &tmp_path, path, data);
+        #[cfg(locustdb_verif)]
+        crate::verif::fs_effect(crate::verif::FsOp::Rename, false, &tmp_path, path, data);
+        #[cfg(locustdb_verif)]
+        let tmp_path_verif = tmp_path.clone();
         std::fs::rename(tmp_path, path).map_err(|e| format!("Failed to rename file: {}", e))?;
+        #[cfg(locustdb_verif)]
+        crate::verif::fs_effect(crate::verif::FsOp::Rename, true, &tmp_path_verif, path, data);
 
         Ok(())
     }
@@ -135,7 +151,11 @@ impl BlobWriter for FileBlobWriter {
     }
 
     fn delete(&self, path: &Path) -> Result<(), Box<dyn Error + Send + Sync + 'static>> {
+        #[cfg(locustdb_verif)]
+        crate::verif::fs_effect(crate::verif::FsOp::Remove, false, path, path, &[]);
         std::fs::remove_file(path)?;
+        #[cfg(locustdb_verif)]
+        crate::verif::fs_effect(crate::verif::FsOp::Remove, true, path, path, &[]);
         Ok(())
     }
 
